@@ -230,6 +230,14 @@ class C01(Prop):
             lines.append(case_line(f'zb{n}', ('then', ('ignored', p_), rest), inp3, kind=kind))
             lines.append(case_line(f'!zb{n}', ('then', ('ccheck', p_), rest), inp3, kind=kind))
             n += 1
+            # `unwrapped()` over `map(Some)` / `map(Ok)` is the identity (harness-only `!zu…` / `!zv…` against the parser itself),
+            # in parse and in check mode
+            for mode in ('parse', 'check'):
+                lines.append(case_line(f'zu{n}', ('then', p_, rest), inp3, kind=kind, mode=mode))
+                lines.append(case_line(f'!zu{n}', ('then', ('unwrapsome', p_), rest), inp3, kind=kind, mode=mode))
+                lines.append(case_line(f'zv{n}', ('or', ('then', p_, ('just', [98])), p_), inp3, kind=kind, mode=mode))
+                lines.append(case_line(f'!zv{n}', ('or', ('then', ('unwrapok', p_), ('just', [98])), ('unwrapok', p_)), inp3, kind=kind, mode=mode))
+                n += 1
         for shape in (lambda c: ('then', c, rest), lambda c: ('collect', 'vec', ('rep', c, 0, 2)), lambda c: ('or', ('then', c, ('just', [98])), c)):
             kind = 'str' if n % 2 == 0 else 'slice'
             lines.append(case_line(f'ze{n}', shape(('cnext', 3)), inp3, kind=kind))
@@ -265,6 +273,8 @@ class C01(Prop):
         i = proj_accept_value(parse_M(impl_M))
         m = proj_accept_value(parse_M(model_M))
         s = spec_accept_value(parse_S(spec_S))
+        if ' check ' in line[:48] and s[0] == 'R' and s[1] is not None:
+            s = ('R', 'u')          # `check()` builds no output
         return {'corr': i == m, 'pred': i == s, 'why': 'acceptance/output differs from the PEG reading',
                 'outcome': 'accept' if i[0] == 'R' and i[1] is not None else ('reject' if i[0] == 'R' else i[0]),
                 'nontrivial': is_nontrivial(line, k, i)}
@@ -2504,11 +2514,13 @@ class C09(Prop):
             maxlen = 5 if tier == 'quick' or n >= 60 else 6
             nops = rng.randint(1, 6)
             ops = []
+            # every seventh table on the far end of the u16 scale of binding powers (the four levels 1, 32767, 32768, 65535)
+            scale = {1: 1, 2: 32767, 3: 32768, 4: 65535} if n % 7 == 3 else None
             for _ in range(nops):
                 kind = rng.choice(['infixl', 'infixr', 'prefix', 'postfix'])
                 bp = rng.randint(1, 4)
                 sym = rng.choice(syms)
-                ops.append(f'{kind} {bp} just 1 {sym}')
+                ops.append(f'{kind} {scale[bp] if scale else bp} just 1 {sym}')
             y = 233 if n % 4 >= 2 else 121                    # a two-byte atom: spans in bytes differ from spans in tokens
             body = f'A oneof 2 120 {y} O {nops} ' + ' '.join(ops) + ' I ' + inputs_all(maxlen, [120, y] + syms)
             kind = 'str' if n % 2 == 0 else 'slice'          # byte offsets / token indices in the spans the callbacks get
